@@ -187,6 +187,7 @@ pub fn parse_history(text: &str) -> Vec<sim::system::Ev> {
             "Join" => Ev::Join(nums[0] as u8),
             "Client" => Ev::Client(nums[0] as u8),
             "FlushDone" => Ev::FlushDone,
+            "Disconnect" => Ev::Disconnect(nums[0] as u8),
             other => panic!("unknown event {other}"),
         });
     }
